@@ -124,7 +124,7 @@ def key(v):
     if isinstance(v, datetime.date):
         return f"date:{v.isoformat()}"
     if isinstance(v, datetime.timedelta):
-        return f"td:{pd.Timedelta(v).value}"
+        return f"td:{(v.days * 86400 + v.seconds) * 10 ** 9 + v.microseconds * 1000}"
     if isinstance(v, decimal.Decimal):
         return f"dec:{v}"
     if isinstance(v, bytes):
